@@ -22,7 +22,7 @@ ASSUMPTIONS = ['unit cells are bounded by pairs of parallel planes listed pairwi
 
 def plan(tier):
     q = tier == 'quick'
-    return [('monitor', 200 if q else 3000, {}), ('optlattice', 200 if q else 1500, {}), ('model', 50 if q else 800, {}),
+    return [('monitor', 340 if q else 3000, {}), ('optlattice', 200 if q else 1500, {}), ('model', 50 if q else 800, {}),
             ('degenerate', 6 if q else 40, {})]
 
 
@@ -38,7 +38,7 @@ def _known(d, res):
 
 def run_case(stream, seed, ctx, params):
     rng = random.Random(seed)
-    kind = rng.choice(['rect1', 'rect2', 'rect2', 'rect3', 'skew2', 'rppmac', 'boxmac'])
+    kind = rng.choice(['rect1', 'rect2', 'rect2', 'rect3', 'skew2', 'tilt2', 'tilt2', 'rppmac', 'boxmac'])
     d = U.build_universe_deck(rng, depth=rng.randint(1, 2), macro_p=0.0, tr_p=0.0, fill_tr_p=0.4, trcl_p=0.2,
                               reuse_p=0.3, lattice_p=0.7, lat_kind=kind, lat_tr_p=0.35, lat_trcl_p=0.25)
     args = random_options(rng)
